@@ -204,7 +204,7 @@ func ruleWriteLocked(c *Ctx) {
 				if cc.IsInvoke() {
 					nm = cc.Method.Name()
 				} else if cc.StaticCallee() != nil {
-					nm = cc.StaticCallee().Name()
+					nm = baseFuncName(cc.StaticCallee())
 				}
 				if nm == "Flush" {
 					flushes = append(flushes, u)
@@ -341,7 +341,7 @@ func ruleBufferedOrder(c *Ctx) {
 	}
 	isBufferedCall := func(v ssa.Value) bool {
 		call, ok := v.(*ssa.Call)
-		return ok && call.Call.StaticCallee() != nil && call.Call.StaticCallee().Name() == "Buffered"
+		return ok && call.Call.StaticCallee() != nil && baseFuncName(call.Call.StaticCallee()) == "Buffered"
 	}
 	// state: 0 unknown, 1 buffer known empty, 2 known non-empty
 	r := &PathRule[int8]{Fn: w, Init: []int8{0},
@@ -351,7 +351,7 @@ func ruleBufferedOrder(c *Ctx) {
 				return nil
 			}
 			n := calleeName(cc)
-			if cc.StaticCallee() != nil && cc.StaticCallee().Name() == "Flush" {
+			if cc.StaticCallee() != nil && baseFuncName(cc.StaticCallee()) == "Flush" {
 				return []int8{1}
 			}
 			if n == "(*bytes.Buffer).Write" {
@@ -392,7 +392,7 @@ func ruleBufferedOrder(c *Ctx) {
 		}
 		direct := false
 		if cc.IsInvoke() && cc.Method.Name() == "Write" {
-			if f, _, okf := fieldLoad(cc.Value); okf && f.Name() == "socket" && derivedFromParam(cc.Args[0]) {
+			if f, _, okf := fieldLoad(cc.Value); okf && theProgram.baseFieldName(f) == "socket" && derivedFromParam(cc.Args[0]) {
 				direct = true
 			}
 		}
